@@ -25,7 +25,7 @@ class K3Adapter(object):
     """Broker / portfolio / position op sequences (C01-C05, C15)."""
 
     def accepts(self, case):
-        return 'ops' in case
+        return 'ops' in case and case.get('kind') != 'position' and 'start' in case
 
     N = dict(quick=150, thorough=3000)
     SEARCH = dict(quick=300, thorough=3000)
@@ -87,7 +87,7 @@ class K3Adapter(object):
 
     def run(self, prop, tier, seed):
         import k3
-        r = k3.run(prop, tier, seed, self.N[tier], corpus=load_corpus(prop) + load_corpus('K3'), exhaustive=(tier == 'thorough'))
+        r = k3.run(prop, tier, seed, self.N[tier], corpus=[c for c in load_corpus(prop) + load_corpus('K3') if self.accepts(c)], exhaustive=(tier == 'thorough'))
         return self._result(prop, r, tier)
 
     def replay(self, prop, payload):
@@ -204,7 +204,7 @@ class CaseAdapter(object):
         return dict(findings=findings, mismatches=mism, coverage=cov, harness=self.label, assumptions=list(self.assumptions))
 
     def run(self, prop, tier, seed):
-        r = self.mod().run(prop, tier, seed, self.n_cases(prop, tier), corpus=load_corpus(prop))
+        r = self.mod().run(prop, tier, seed, self.n_cases(prop, tier), corpus=[c for c in load_corpus(prop) if self.accepts(c)])
         return self._result(prop, r)
 
     def replay(self, prop, payload):
